@@ -3,6 +3,7 @@ package sse
 import (
 	"context"
 	"errors"
+	"fmt"
 	"strconv"
 	"sync"
 )
@@ -60,6 +61,7 @@ var (
 	vjErrFlush  = errors.New("verif: subscriber Flush failed")
 	vjErrPut    = errors.New("verif: replayer Put failed")
 	vjErrReplay = errors.New("verif: replayer Replay failed")
+	vjErrSendCanceled = fmt.Errorf("verif: subscriber Send failed: %w", context.Canceled)
 )
 
 type vjClient struct {
@@ -67,18 +69,36 @@ type vjClient struct {
 	i     int
 	msgOf func(*Message) int
 	canFail bool
+	gate  chan struct{} // GATE=1: Send only returns once the publisher got its last Publish call back
 }
 
 func (c *vjClient) Send(m *Message) error {
 	if c.env.isReturned(c.i) {
 		c.env.usedAfterRet = true
 	}
+	// a real MessageWriter (Session.Send) reads the message it is given: a nil message
+	// crashes it, inside Joe's goroutine
+	_ = len(m.chunks)
+	if c.gate != nil {
+		verifYield()
+		<-c.gate
+	}
 	var err error
 	if c.canFail && verifNondetBool("sendfails") {
-		err = vjErrSend
+		err = vjSendError()
 	}
 	c.env.add(vjEvent{kind: vjSend, i: c.i, m: c.msgOf(m), err: err})
 	return err
+}
+
+// vjSendError: the error a failing Send returns. ERRKIND=1: an error that wraps
+// context.Canceled although the subscription's own context is live (a writer built
+// on another context, e.g. the HTTP/2 stream's) - still the subscriber's own error.
+func vjSendError() error {
+	if verifParam("ERRKIND", 0) == 1 {
+		return vjErrSendCanceled
+	}
+	return vjErrSend
 }
 
 func (c *vjClient) Flush() error {
@@ -103,6 +123,8 @@ type vjReplayer struct {
 	copies  []*Message // copies[k]: the ID-carrying copy of msgs[k] handed out by Put
 	topics  [][]string
 	faults  bool
+	sameMsg bool
+	calls   int
 	subIdx  func(Subscription) int
 }
 
@@ -116,6 +138,10 @@ func (r *vjReplayer) Put(m *Message, topics []string) (*Message, error) {
 			k = i
 		}
 	}
+	if r.sameMsg && k >= 0 {
+		k = r.calls // the same object every time: the k-th call is the k-th publication
+	}
+	r.calls++
 	outcome := 0
 	if r.faults {
 		outcome = verifChoose("put-outcome", 3)
@@ -224,6 +250,7 @@ func vjRun(nsub, nmsg, nshut int, cancel bool, clientFaults bool, replayer int, 
 	s := &vjScenario{nsub: nsub, nmsg: nmsg, nshut: nshut}
 	s.env = &vjEnv{returned: make([]bool, nsub), nsub: nsub}
 	s.j = &Joe{}
+	sameMsg := verifParam("SAMEMSG", 0) == 1
 	topicsMode := verifParam("TOPICS", 1) // 0: everything on the default topic; 1: symbolic one-byte topics
 	mkTopics := func(tag string) []string {
 		if topicsMode == 0 {
@@ -239,6 +266,15 @@ func vjRun(nsub, nmsg, nshut int, cancel bool, clientFaults bool, replayer int, 
 	for k := 0; k < nmsg; k++ {
 		m := &Message{}
 		m.AppendData("m" + strconv.Itoa(k))
+		if sameMsg {
+			// one *Message published nmsg times (a reused keep-alive message): every
+			// Publish is a publication of its own
+			if k > 0 {
+				m = s.msgs[0]
+			} else {
+				m.ID = ID("preset")
+			}
+		}
 		s.msgs = append(s.msgs, m)
 		s.mtopics = append(s.mtopics, mkTopics("mtopic"))
 	}
@@ -247,9 +283,12 @@ func vjRun(nsub, nmsg, nshut int, cancel bool, clientFaults bool, replayer int, 
 		for k := 0; k < nmsg; k++ {
 			c := s.msgs[k].Clone()
 			c.ID = ID("id" + strconv.Itoa(k))
+			if sameMsg {
+				c = s.msgs[0] // a replayer with caller-provided IDs hands the message itself back
+			}
 			s.copies = append(s.copies, c)
 		}
-		rep = &vjReplayer{env: s.env, msgs: s.msgs, copies: s.copies, topics: s.mtopics, faults: replayer == 2}
+		rep = &vjReplayer{env: s.env, msgs: s.msgs, copies: s.copies, topics: s.mtopics, faults: replayer == 2, sameMsg: sameMsg}
 		s.j.Replayer = rep
 	}
 	s.subErr = make([]error, nsub)
@@ -259,6 +298,13 @@ func vjRun(nsub, nmsg, nshut int, cancel bool, clientFaults bool, replayer int, 
 	s.shutDone = make([]bool, nshut)
 	s.shutCtxDone = make([]bool, nshut)
 	subs := make([]Subscription, nsub)
+	// GATE=1: a pipelined consumer - its Send makes progress only once the publisher has got
+	// all its Publish calls back (delivered or ErrProviderClosed). Such a Send returns as long
+	// as Joe keeps his promise that every Publish returns once Shutdown was called.
+	var gate chan struct{}
+	if verifParam("GATE", 0) == 1 {
+		gate = make(chan struct{})
+	}
 	for i := 0; i < nsub; i++ {
 		ctx := &vhCtx{done: make(chan struct{})}
 		s.ctxs = append(s.ctxs, ctx)
@@ -267,7 +313,7 @@ func vjRun(nsub, nmsg, nshut int, cancel bool, clientFaults bool, replayer int, 
 		} else {
 			s.stopics = append(s.stopics, mkTopics("stopic"))
 		}
-		cl := &vjClient{env: s.env, i: i, msgOf: s.msgOf, canFail: clientFaults}
+		cl := &vjClient{env: s.env, i: i, msgOf: s.msgOf, canFail: clientFaults, gate: gate}
 		subs[i] = Subscription{Client: cl, Topics: s.stopics[i]}
 		if resume && replayer > 0 {
 			// present: nothing, the ID of any message, or an ID that was never issued
@@ -319,6 +365,10 @@ func vjRun(nsub, nmsg, nshut int, cancel bool, clientFaults bool, replayer int, 
 				s.pubDone[k] = true
 				s.env.add(vjEvent{kind: vjPubReturn, i: 0, m: k, err: err})
 			}
+			if gate != nil {
+				verifYield()
+				close(gate)
+			}
 		})
 	}
 	for d := 0; d < nshut; d++ {
@@ -347,7 +397,7 @@ func vjErrName(e error) string {
 	switch e {
 	case nil:
 		return "nil"
-	case vjErrSend:
+	case vjErrSend, vjErrSendCanceled:
 		return "send"
 	case vjErrFlush:
 		return "flush"
@@ -549,8 +599,35 @@ func (s *vjScenario) checkDelivery(prefix string) {
 				}
 			}
 		}
+		if verifParam("SAMEMSG", 0) == 1 {
+			// the Sends cannot be told apart: count them. At least one per publication
+			// the subscriber is owed, at most one per accepted publication that matches.
+			sends, owed, allowed := 0, 0, 0
+			for _, e := range log {
+				if e.kind == vjSend && e.i == i {
+					sends++
+				}
+			}
+			for k := 0; k < s.nmsg; k++ {
+				if putPos[k] < 0 || !vjMatches(s.stopics[i], s.mtopics[k]) {
+					continue
+				}
+				allowed++
+				if regPos[i] >= 0 && regPos[i] < putPos[k] && (errPos < 0 || errPos > putPos[k]) && (cancelPos < 0 || cancelPos > putPos[k]) {
+					owed++
+				}
+			}
+			verifAssert(sends <= allowed, prefix+"/no-message-handed-twice-to-a-subscriber")
+			verifAssert(sends >= owed, prefix+"/every-registered-matching-subscriber-gets-the-message")
+			if owed > 0 {
+				verifCover(prefix + "/delivery-obligation")
+			}
+			if owed > 1 {
+				verifCover(prefix + "/same-message-owed-twice")
+			}
+		}
 		lastSent := -1 // put position of the last message sent to i
-		for k := 0; k < s.nmsg; k++ {
+		for k := 0; k < s.nmsg && verifParam("SAMEMSG", 0) == 0; k++ {
 			// Send calls for message k to subscriber i
 			n := 0
 			firstSend := -1
